@@ -312,7 +312,7 @@ def gen_mix(seed, idbase=0, nops=220, name="mix"):
     s.op("clone_db", db=1, **{"from": 0})
     maps = []
     nh = 0
-    vlens = [0, 1, 3, 14, 15, 20, 21, 100, 300, 900, 1100, 1500, 3000, 17000]
+    vlens = [0, 1, 3, 14, 15, 20, 21, 100, 300, 900, 1100, 1500, 3000, 17000, 10, 11, 18, 19]     # the last four: as long as the keys
     vids = [s.val_ascii(x) for x in vlens]
     spec = special_bytes(rng)
     sv = []
@@ -387,6 +387,21 @@ def gen_mix(seed, idbase=0, nops=220, name="mix"):
                 o["k"] = ok
             if o["op"] == "put":
                 o["v"] = rng.choice(vids)
+            continue
+        if rng.random() < 0.05:
+            # a traversal that is given up half way, and an update right after it
+            s.op("iter_abandon", h=h, flavour=rng.choice(["iter", "iter_mut", "keys", "values", "into_iter"]), steps=rng.randrange(1, 6))
+            s.op(rng.choice(["put", "del"]), h=h, k=k)
+            if s.ops[-1]["op"] == "put":
+                s.ops[-1]["v"] = rng.choice(vids)
+            continue
+        if rng.random() < 0.015:
+            # every live key deleted in the order of insertion of the key list, then the first ones put again
+            for kk in m["keys"]:
+                s.op("del", h=h, k=kk)
+            for kk in m["keys"][:5]:
+                s.op("put", h=h, k=kk, v=rng.choice(vids))
+            s.op("iter", h=h, flavour=rng.choice(FLAVOURS))
             continue
         if rng.random() < 0.04:
             # the same call twice in a row; empty arguments; all handles of a map dropped and the map asked for again
@@ -1165,7 +1180,7 @@ def gen_params(seed, idbase=0, nops=220, buckets=("BucketsSize", 8), bufs=None, 
     return s
 
 
-MAP_NAMES = ["a", "b.x", "b.y", "data.2024", "data.2025", "m-1", "A", "b"]
+MAP_NAMES = ["a", "b.x", "b.y", "data.2024", "data.2025", "m-1", "A", "b", "n" * 200, "x"]
 
 
 def gen_multi(seed, idbase=0, nops=250, nmaps=3, name="multi"):
